@@ -5,7 +5,7 @@ open Rio
 def showRel (p : RelPath) : String := s!"{toHex p.path},{p.lastSplit}"
 def showAbs (p : AbsPath) : String := s!"{toHex p.path},{p.lastSplit}"
 def showRels (ps : List RelPath) : String := ";".intercalate (ps.map showRel)
-def b01 (b : Bool) : String := if b then "1" else "0"
+private def b01 (b : Bool) : String := if b then "1" else "0"
 
 def pathEngine : List String → String
   | ["clean", h] => match fromHex h with
